@@ -5,7 +5,9 @@ Implementation under test: the real `Context.request(msg)` -> `BlockwiseRequest`
 `RequestInterface` registered in the context (no sockets, no time).  Every block request that
 reaches the interface is observed in its serialised form (options encoded and decoded again)
 and answered by the independent RFC 7959 reference server of `harness/c05_refserver.py`
-(conforming with size reductions at any block, or misbehaving once).
+(conforming with size reductions at any block, or deviating once: violating a sequencing rule,
+or ending the transfer itself with one complete response).  Requests are sent with and without
+Observe:0; the server may put an Observe option into intermediate 2.31 acknowledgements.
 
 Correspondence (model ~ code):
   R  Lean `runClient` is given the recorded responses and must reproduce the wire sequence of
@@ -16,6 +18,9 @@ Correspondence (model ~ code):
      the server recorded;
   B  `BlockwiseTuple.size/start/is_valid_for_payload_size/reduced_to` against `BlockOpt`.
 Oracle (independent reading of the property over what the implementation did): see `oracle`.
+There is no class of "tolerated" deviations: a server is conforming (both bodies intact), violates
+a sequencing rule (the request ends with an aiocoap error), or ends the transfer with ONE response
+that is complete in CoAP terms (the caller gets exactly that response, nothing more is uploaded).
 """
 import asyncio
 import logging
